@@ -3,7 +3,11 @@
 (*                                                                                       *)
 (* state                                                                                 *)
 (*   fs   : path name -> node.  node = [k |-> "absent"] | [k |-> "dir"]                   *)
-(*          | [k |-> "file", data |-> Seq(chunk id), mode |-> Nat]                        *)
+(*          | [k |-> "file", data |-> Seq(chunk id), mode |-> Nat, synced |-> BOOLEAN]    *)
+(*          synced = every chunk of data has reached STABLE STORAGE (fsync since the last  *)
+(*          chunk arrived): the page-cache layer.  A process kill keeps un-synced data, a    *)
+(*          power loss does not; a directory entry that refers to un-synced data may be      *)
+(*          found empty or torn after a power loss (Durable below).                          *)
 (*          | [k |-> "symlink"]                                                          *)
 (*   fds  : handle -> [path, buf, w]   open descriptions with their USER-SPACE buffer     *)
 (*          (data written but not yet flushed is in buf, not in the file; a kill loses it)*)
@@ -14,7 +18,8 @@ EXTENDS Naturals, Sequences, FiniteSets, TLC
 
 Absent == [k |-> "absent"]
 Dir == [k |-> "dir"]
-File(data, mode) == [k |-> "file", data |-> data, mode |-> mode]
+SFile(data, mode, synced) == [k |-> "file", data |-> data, mode |-> mode, synced |-> synced]
+File(data, mode) == SFile(data, mode, FALSE)          \* data that just arrived is in the page cache only
 
 IsFile(n) == n.k = "file"
 Node(fs, p) == IF p \in DOMAIN fs THEN fs[p] ELSE Absent
@@ -41,8 +46,11 @@ PartialFlush(fs, fds, h) ==
      [fds EXCEPT ![h].buf = <<>>] >>
 Close(fs, fds, h) == << FlushData(fs, fds, h), [g \in DOMAIN fds \ {h} |-> fds[g]] >>
 CloseTorn(fs, fds, h) == << PartialFlush(fs, fds, h)[1], [g \in DOMAIN fds \ {h} |-> fds[g]] >>
-Fchmod(fs, fds, h, m) == << IF IsFile(Node(fs, fds[h].path)) THEN Put(fs, fds[h].path, File(Node(fs, fds[h].path).data, m)) ELSE fs, fds >>
-Chmod(fs, fds, p, m) == << IF IsFile(Node(fs, p)) THEN Put(fs, p, File(Node(fs, p).data, m)) ELSE fs, fds >>
+Fchmod(fs, fds, h, m) == << IF IsFile(Node(fs, fds[h].path)) THEN Put(fs, fds[h].path, [Node(fs, fds[h].path) EXCEPT !.mode = m]) ELSE fs, fds >>
+Chmod(fs, fds, p, m) == << IF IsFile(Node(fs, p)) THEN Put(fs, p, [Node(fs, p) EXCEPT !.mode = m]) ELSE fs, fds >>
+(* fsync(2): what the FILE holds now (not what is still in a user-space buffer) reaches stable storage *)
+FsyncPath(fs, fds, p) == << IF IsFile(Node(fs, p)) THEN Put(fs, p, [Node(fs, p) EXCEPT !.synced = TRUE]) ELSE fs, fds >>
+Fsync(fs, fds, h) == FsyncPath(fs, fds, fds[h].path)
 (* rename(2): atomic; the destination gets the source's node AS IT IS ON DISK (buffers stay with their handles) *)
 Rename(fs, fds, a, b) == << Put(Put(fs, b, Node(fs, a)), a, Absent),
                             [g \in DOMAIN fds |-> IF fds[g].path = a THEN [fds[g] EXCEPT !.path = b] ELSE fds[g]] >>
@@ -59,5 +67,8 @@ Holds(fs, p, OLDC, NEWC) ==
   ELSE IF n.data = NEWC THEN "NEW"
   ELSE IF n.data = OLDC THEN "OLD"
   ELSE "TORN"
+(* power-loss safety of the install: the target's directory entry never refers to data that is not on stable storage *)
+(* (an empty file that was never written to holds nothing that could be lost)                                      *)
+Durable(fs, p) == IsFile(Node(fs, p)) => (Node(fs, p).synced \/ Node(fs, p).data = <<>>)
 TmpFiles(fs) == {p \in DOMAIN fs : fs[p].k # "absent" /\ p \notin {"target", "parent", "root"}}
 =============================================================================
